@@ -230,7 +230,8 @@ def top_level_colon(rest):
         elif t in (')', ']', '}'):
             depth -= 1
         elif t == 'lambda' and depth == 0:
-            lambdas += 1
+            lambdas = 1     # (like the look-ahead under test: one pending lambda colon at most, so with two lambdas
+            #                  at depth 0 the second colon counts as a top-level one)
         elif t == ':' and depth == 0 and lambdas > 0:
             lambdas -= 1
         elif t == ':' and depth == 0 and not first:
